@@ -277,11 +277,10 @@ impl<L: Language> Matcher<L> for Pattern<L> {
 
   fn potential_kinds(&self) -> Option<bit_set::BitSet> {
     let kind = match self.node {
-      PatternNode::Terminal { kind_id, .. } => kind_id,
       PatternNode::MetaVar { .. } => self.root_kind?,
-      PatternNode::Internal { kind_id, .. } => {
+      PatternNode::Terminal { kind_id, .. } | PatternNode::Internal { kind_id, .. } => {
         if kind_utils::is_error_kind(kind_id) {
-          // error can match any kind
+          // error can match any kind, whether the error node has children or not
           return None;
         }
         kind_id
